@@ -54,6 +54,7 @@ type Ctx struct {
 	rule     string
 	oracleN  int // number of oracle evaluations
 	scale    int // 1 quick, larger for thorough
+	goOnly   int // cases run on the Go side only (too large for the model runner): oracle only, no model comparison
 	// faultIsFinding: a panic of the implementation on any generated case is a
 	// violation of the property itself (C16)
 	faultIsFinding bool
@@ -196,7 +197,8 @@ func runProperty(prop string, seed uint64, tier, outdir string) error {
 	cf.Close()
 	inf.Close()
 
-	rep.Evaluations = len(ctx.cases)
+	rep.Evaluations = len(ctx.cases) + ctx.goOnly
+	ctx.dist["go_side_only_cases"] = ctx.goOnly
 	rep.DistinctNontriv = len(ctx.nontriv)
 	rep.OracleChecks = ctx.oracleN
 	rep.Samples = ctx.samples
